@@ -40,9 +40,22 @@ RULE = ("base files: seeded choice of write path (writer, writer HISTORY = porti
         "recorded cases with event count 0); alert-exercising corruptions (flow rates that do not "
         "add up, non-mandatory key removed, channel name without feature, temp feature without "
         "temperature key); every uncorrupted file is exported again (every second event; all or "
-        "every second innate feature) and the output checked. A case is non-trivial when it has at "
+        "every second innate feature) and the output checked. Session 4 (second pass): feature sets "
+        "with ml_score_??? features (one partially rated, one fully rated, one that rated no event: "
+        "all-nan) and a non-zero temp feature of a ZMD device through every write path; export of an "
+        "event RANGE (only the unrated events / a range ending before the last event); either part "
+        "of a dclab-split; CHUNK-SPANNING outputs: with writer.CHUNK_SIZE_BYTES shrunk so that "
+        "10-13 events fill one HDF5 chunk of the target feature (image / mask / trace; chunk length "
+        "measured in a written file), filtered exports of one contiguous block (events before / "
+        "after it or not) and of a selection with holes, and dclab-split outputs, of k*c-1, k*c, "
+        "k*c+1 events (k = 1..3), per (feature set, target) every size; corruptions mlbad (one "
+        "score outside [0, 1]) and mlnan (scores made nan: still valid). A case is non-trivial when it has at "
         "least one corruption; distinct = distinct (write path, feature set, corruption list).")
 TRUSTED_BASE = [
+    "harness/c13_util.py:describe decides the model's `ml` flag (`ds['ml_class']` raises ValueError): "
+    "a rated (non-nan) score outside [0, 1], or a score feature whose length is neither len(ds) nor "
+    "1; the two messages check_ml_class passes on are recognised by the score feature's name plus a "
+    "range statement, and by NumPy's broadcast refusal",
     "harness/c13_util.py:describe (raw h5py + dclab.definitions.feature_exists + "
     "DEFECTIVE_FEATURES) maps a file to the abstract description D; cue messages are mapped to "
     "canonical identifiers by regular expressions",
@@ -57,11 +70,17 @@ ASSUMPTIONS = [
     "sections of ds.config exist when they hold a key or were touched before "
     "check_metadata_missing (experiment, setup, fluorescence) — Model/Check.lean:alwaysTouched",
     "files without `event count` whose first stored feature is `trace` are not generated",
-    "ml_class / ml_score features are not generated (cue modelled as a flag only)",
+    "the chunk-spanning cases shrink the public constant dclab.rtdc_dataset.writer."
+    "CHUNK_SIZE_BYTES; when it does not exist or the measured chunk length stays above 48 events "
+    "the cases are not built (NOTE, statistic case_not_built)",
     "truncating corruptions keep at least one row: a zero-length trace member makes "
     "check_fl_samples_per_event raise IndexError (observation, not generated); event counts "
     "are never made negative"]
 NOT_PROVED = [
+    "check_ml_class is a flag of the model (mlClassError): that all-nan / partially rated scores "
+    "raise nothing, and that chunk-wise copying of non-scalar features keeps every selected event, "
+    "are correspondence-only (direct oracle: dclab's own output has no violation); the flag of a "
+    "COMPRESSED copy is not compared when score features meet a derived-metadata corruption",
     "alert level: modelled and compared are check_metadata_missing (non-mandatory keys, desirable "
     "sections, temp rule), check_fl_metadata_channel_names, check_empty, check_flow_rate and the "
     "uncommon-basin-path branch; NOT modelled (left out of the comparison by class): "
@@ -93,9 +112,22 @@ FEATSETS = {
     "fl": ["deform", "area_um", "fl1_max", "trace", "index"],
     "flimg": ["deform", "fl1_max", "fl2_max", "image", "trace"],
     "imgs": ["deform", "image", "image_bg", "mask", "index"],
+    # machine-learning scores (see `ml_rows`): partially rated, fully rated, never rated; `temp`
+    # of a ZMD device (the base metadata name one) with non-zero values
+    "ml": ["deform", "area_um", "ml_score_abc", "ml_score_xyz", "temp"],
+    "mlnan": ["deform", "ml_score_abc", "ml_score_nan", "index"],
 }
+#: events (tokens) below this number are rated by the classifier `ml_score_abc`, later ones are
+#: not (nan); `ml_score_nan` rated no event at all, `ml_score_xyz` every event
+ML_RATED = 6
 PATHS = ["writer", "history", "export", "export-subset", "compress", "repack", "condense", "split",
          "join"]
+#: outputs whose non-scalar features span more than one HDF5 chunk (see `gen_chunk_cases`) and
+#: exports of an explicit event range
+CHUNK_PATHS = ["export-chunk", "split-chunk"]
+#: (feature set, non-scalar feature whose chunk length the selection size is relative to)
+CHUNK_TARGETS = [("image", "image"), ("fl", "trace"), ("flimg", "image"), ("flimg", "trace"),
+                 ("imgs", "mask")]
 #: large measurements (scalar features only, >= 2e5 events): the array-comparing cues (index
 #: enumerates, feature lengths) must be exact for every size, also far from the first event
 LARGE_FEATS = ["deform", "area_um", "index"]
@@ -105,11 +137,41 @@ ARRAY_KINDS = ["skipindex", "permindex", "dupindex", "trunc", "evcount", "evset"
                "shiftindex"]
 
 
-def write_base(path, fs, n, rid="rid-c13", t0=0):
+def ml_rows(feat, toks):
+    """scores in [0, 1] (multiples of 1/1000), nan for events the classifier did not rate"""
+    toks = list(toks)
+    a = np.array([((gen.hash_str(feat) + 7919 * t) % 1001) / 1000.0 for t in toks], dtype=float)
+    if feat == "ml_score_nan":
+        a[:] = np.nan
+    elif feat == "ml_score_abc":
+        a[np.array(toks, dtype=int) >= ML_RATED] = np.nan
+    return a
+
+
+def rows(feat, toks):
+    return ml_rows(feat, toks) if feat.startswith("ml_score_") else gen.rows(feat, toks)
+
+
+def write_base(path, fs, n, rid="rid-c13", t0=0, meta_extra=None):
     meta = {k: v for k, v in base_meta(fs).items() if k == "fluorescence"}
-    gen.make_rtdc(path, range(t0, t0 + n), feats=list(FEATSETS[fs]),
-                  trace_names=("fl1_raw", "fl1_median"),
-                  logs={"verif": ["line one", "line two"]}, meta=meta, rid=rid)
+    for sec, kv in (meta_extra or {}).items():
+        meta.setdefault(sec, {}).update(kv)
+    logs = {"verif": ["line one", "line two"]} if meta_extra is None else None
+    if not any(f.startswith("ml_score_") for f in FEATSETS[fs]):
+        gen.make_rtdc(path, range(t0, t0 + n), feats=list(FEATSETS[fs]),
+                      trace_names=("fl1_raw", "fl1_median"), logs=logs, meta=meta, rid=rid)
+        return path
+    dclab = common.import_dclab()
+    m = copy.deepcopy(gen.BASE_META)
+    for sec, kv in meta.items():
+        m.setdefault(sec, {}).update(kv)
+    m["experiment"]["run identifier"] = rid
+    with dclab.RTDCWriter(path, mode="reset") as hw:
+        hw.store_metadata(m)
+        for f, d in feature_data(fs, range(t0, t0 + n)).items():
+            hw.store_feature(f, d)
+        for name, lines in (logs or {}).items():
+            hw.store_log(name, lines)
     return path
 
 
@@ -137,7 +199,7 @@ def feature_data(fs, toks):
         elif f == "trace":
             out[f] = gen.trace_dict(("fl1_raw", "fl1_median"), toks)
         else:
-            out[f] = gen.rows(f, toks)
+            out[f] = rows(f, toks)
     return out
 
 
@@ -238,24 +300,136 @@ def make_base(ctx, wd, spec):
         write_base(src, fs, 2 * n)
         res = cli.split(path_in=pathlib.Path(src), path_out=wd / "splitdir", split_events=n,
                         ret_out_paths=True, verbose=False)
-        shutil.copy(sorted(res)[0], out)
+        shutil.copy(sorted(res)[extra.get("part", 0) % len(res)], out)
         return out
+    if wpath == "export-range":                  # the events [a, b) of the source only
+        write_base(src, fs, n)
+        export_selection(src, out, range(*extra["keep"]))
+        return out
+    if wpath in CHUNK_PATHS:
+        return make_chunked(wd, wpath, fs, extra, src, out)
     if wpath == "join":
         a = write_base(wd / "a.rtdc", fs, n // 2 + 1, t0=0)
         b = wd / "b.rtdc"
-        m = {"experiment": {"time": "10:54:11", "run index": 2}}
-        feats = list(FEATSETS[fs])
-        if fs in ("fl", "flimg"):
-            m["fluorescence"] = base_meta(fs)["fluorescence"]
-        gen.make_rtdc(b, range(50, 50 + n - n // 2 - 1 + 1), feats=feats,
-                      trace_names=("fl1_raw", "fl1_median"), meta=m, rid="rid-c13")
+        write_base(b, fs, n - n // 2 - 1 + 1, t0=50,
+                   meta_extra={"experiment": {"time": "10:54:11", "run index": 2}})
         cli.join(path_out=out, paths_in=[a, b])
         return out
     raise ValueError(wpath)
 
 
+class CaseSkipped(Exception):
+    """the generator cannot build this case on the code under test (never a verdict)"""
+
+
+def small_chunks(nbytes):
+    """context: dclab stores HDF5 datasets in chunks of `writer.CHUNK_SIZE_BYTES` bytes and the
+    filtered export copies non-scalar features chunk by chunk; shrinking the (public) constant
+    makes a few dozen small events span several chunks.  Yields False when it does not exist."""
+    import contextlib
+
+    @contextlib.contextmanager
+    def cm():
+        from dclab.rtdc_dataset import writer
+        old = getattr(writer, "CHUNK_SIZE_BYTES", None)
+        if not isinstance(old, int) or isinstance(old, bool):
+            yield False
+            return
+        writer.CHUNK_SIZE_BYTES = int(nbytes)
+        try:
+            yield True
+        finally:
+            writer.CHUNK_SIZE_BYTES = old
+    return cm()
+
+
+def chunk_rows(path, feat):
+    """events per HDF5 chunk of a stored feature, as observable in the file (None: contiguous)"""
+    import h5py
+    with h5py.File(path, "r") as h:
+        obj = h["events"][feat]
+        if isinstance(obj, h5py.Group):
+            obj = obj[sorted(obj.keys())[0]]
+        return int(obj.chunks[0]) if obj.chunks else None
+
+
+def export_selection(src, out, keep):
+    """filtered export.hdf5 of the events `keep` (all innate features)"""
+    dclab = common.import_dclab()
+    import warnings
+    with dclab.new_dataset(src) as ds:
+        ds.filter.manual[:] = False
+        ds.filter.manual[np.array(sorted(keep), dtype=int)] = True
+        ds.apply_filter()
+        with warnings.catch_warnings():
+            warnings.simplefilter("ignore")
+            ds.export.hdf5(out, features=list(ds.features_innate), filtered=True, override=True)
+    return out
+
+
+#: largest chunk length (events) for which the chunk-spanning cases are built
+MAX_CHUNK_ROWS = 48
+
+
+def make_chunked(wd, wpath, fs, extra, src, out):
+    """outputs whose non-scalar features span several HDF5 chunks: the selection has
+    k*c-1, k*c or k*c+1 events, c = chunk length of the target feature as found in a file
+    written with the same settings (measured, not computed)"""
+    from dclab import cli
+    with small_chunks(extra["csb"]) as shrunk:
+        write_base(src, fs, 12)
+        c = chunk_rows(src, extra["target"])
+        if c is None or c > MAX_CHUNK_ROWS:
+            raise CaseSkipped(f"chunk length of '{extra['target']}' is {c} events "
+                              f"(chunk size shrunk: {shrunk}): chunk-spanning case not built")
+        m = extra["k"] * c + extra["delta"]
+        if wpath == "export-chunk":
+            if extra["mode"] == "contig":        # one block of m events, off before, pad after
+                write_base(src, fs, extra["off"] + m + extra["pad"])
+                keep = range(extra["off"], extra["off"] + m)
+            else:                                # m events with a hole inside and one at the end
+                write_base(src, fs, m + 2)
+                hole = 1 + extra["hole"] % (m - 1)
+                keep = [i for i in range(m + 1) if i != hole]
+            export_selection(src, out, keep)
+            return out
+        rest = {"one": 1, "c-1": c - 1, "c": c, "c+1": c + 1, "m": m}[extra["rest"]]
+        write_base(src, fs, m + min(rest, m))
+        res = cli.split(path_in=pathlib.Path(src), path_out=wd / "splitdir", split_events=m,
+                        ret_out_paths=True, verbose=False)
+        shutil.copy(sorted(res)[extra["part"] % len(res)], out)
+        return out
+
+
+def gen_chunk_cases(rng, thorough):
+    """chunk-spanning selections: every (feature set, target feature) x size k*c-1, k*c, k*c+1
+    as one contiguous block, one of them with holes, and as dclab-split (either part)"""
+    cases = []
+    for fs, target in CHUNK_TARGETS:
+        row_bytes = 2 * gen.TRACE_LEN if target == "trace" else gen.IMG_SHAPE[0] * gen.IMG_SHAPE[1]
+
+        def ex(**kw):
+            d = {"target": target, "csb": row_bytes * rng.randint(10, 13),
+                 "k": rng.choice([1, 1, 2, 3] if thorough else [1, 1, 2])}
+            d.update(kw)
+            return d
+        for delta in (-1, 0, 1):
+            pad = rng.choice([0, 0, 2])
+            off = rng.choice([0, 1, 3]) if pad else rng.choice([1, 3])
+            cases.append((("export-chunk", fs, 0, ex(delta=delta, mode="contig", off=off,
+                                                     pad=pad)), []))
+            cases.append((("split-chunk", fs, 0, ex(delta=delta, part=rng.choice([0, 1]),
+                                                    rest=rng.choice(["one", "c-1", "c", "c+1",
+                                                                     "m", "m"]))), []))
+        cases.append((("export-chunk", fs, 0, ex(delta=rng.choice([-1, 0, 1]), mode="holes",
+                                                 hole=rng.randrange(1000))), []))
+    return cases
+
+
 def gen_extra(rng, wpath, fs, n):
     """seeded parameters of the write paths that have some"""
+    if wpath == "split":
+        return {"part": rng.choice([0, 1])}
     if wpath == "export-subset":
         feats = list(FEATSETS[fs])
         k = rng.choice([0, 1, 1, 2, 3, len(feats)])
@@ -326,6 +500,9 @@ def gen_corruption(rng, h_info, only=None):
              "extlink", "evcount", "evset", "flowbad", "delopt", "addchan"]
     if "temp" not in feats:
         kinds += ["tempfeat"]
+    mls = [f for f in feats if f.startswith("ml_score_")]
+    if mls and n > 0:
+        kinds += ["mlbad", "mlbad", "mlnan"]
     scal = [f for f in feats if f not in ("trace",) and not f.startswith("basinmap")]
     if scal and n > 3:
         kinds += ["trunc", "extend"]
@@ -353,6 +530,10 @@ def gen_corruption(rng, h_info, only=None):
     k = rng.choice(kinds)
     if k in ("trunc", "extend"):
         return (k, rng.choice(scal), rng.randint(1, 3))
+    if k == "mlbad":                    # one score outside [0, 1]
+        return (k, rng.choice(mls), rng.choice([1.5, -0.25, 1.001]), rng.randrange(n))
+    if k == "mlnan":                    # a classifier rated fewer / no events: still valid
+        return (k, rng.choice(mls), rng.choice(["all", "some"]))
     if k == "delopt":                   # a key that is neither mandatory nor optional: alert
         return (k,) + rng.choice([("setup", "software version"), ("setup", "identifier"),
                                   ("setup", "module composition"), ("setup", "flow rate sample")])
@@ -444,7 +625,7 @@ def apply_corruption(path, op, wd):
         with h5py.File(path, "r") as h:
             ev = h.get("events", {})
             target = None
-            if op[0] in ("trunc", "extend", "imgshape", "extreplace"):
+            if op[0] in ("trunc", "extend", "imgshape", "extreplace", "mlbad", "mlnan"):
                 target = (ev, op[1])
             elif op[0] == "trtrunc":
                 target = (ev.get("trace", {}), op[1])
@@ -474,6 +655,16 @@ def _apply_corruption(path, op, wd):
             replace_ds(h, "events/" + op[1], np.concatenate([a, a[:op[2]]]))
         elif k == "trtrunc":
             replace_ds(h, "events/trace/" + op[1], ev["trace"][op[1]][:-op[2]])
+        elif k == "mlbad":
+            a = np.array(ev[op[1]][:], dtype=float)
+            if not len(a):
+                raise ValueError("no events")             # -> not applicable
+            a[op[3] % len(a)] = op[2]
+            replace_ds(h, "events/" + op[1], a)
+        elif k == "mlnan":
+            a = np.array(ev[op[1]][:], dtype=float)
+            a[slice(None) if op[2] == "all" else slice(0, None, 2)] = np.nan
+            replace_ds(h, "events/" + op[1], a)
         elif k == "imgshape":
             a = ev[op[1]][:]
             ax = 2 if op[2] == "x" else 1
@@ -740,6 +931,11 @@ def run_case(ctx, idx, spec, corr):
         ctx.note(f"export.hdf5 refused a request of the generator (not a C13 matter): {e}"[:160])
         shutil.rmtree(wd, ignore_errors=True)
         return res
+    except CaseSkipped as e:
+        ctx.stat("case_not_built")
+        ctx.note(str(e)[:200])
+        shutil.rmtree(wd, ignore_errors=True)
+        return res
     except Exception as e:  # noqa
         res["problems"].append(("spec", f"write path {spec[0]} raised {e!r}"[:300]))
         shutil.rmtree(wd, ignore_errors=True)
@@ -939,9 +1135,17 @@ def judge(ctx, res, answers):
             if isinstance(res.get("repack"), list) and \
                     " ".join(res["repack"]) != (mcopy if mcopy != "-" else ""):
                 mirror.append(("repack+check", res["repack"], mcopy))
-            if isinstance(res.get("compress"), list) and \
-                    " ".join(res["compress"]) != (mcomp if mcomp != "-" else ""):
-                mirror.append(("compress+check", res["compress"], mcomp))
+            if isinstance(res.get("compress"), list):
+                ic, mc = list(res["compress"]), (mcomp if mcomp not in ("-", None) else "").split()
+                if any(k in DERIVED for k in kinds) and any(
+                        f.startswith("ml_score_") for f in res.get("info", {}).get("feats", [])):
+                    # the model carries `ds["ml_class"] raises` as a flag of the input; whether
+                    # the score lengths fit len(ds) of the RECTIFIED copy is not modelled
+                    ic = [c for c in ic if c != "mlClass"]
+                    mc = [c for c in mc if c != "mlClass"]
+                    ctx.stat("ml_flag_not_compared_after_compress")
+                if ic != mc:
+                    mirror.append(("compress+check", res["compress"], mcomp))
             want = 3 if res["alerts"] and v else 1 if res["alerts"] else 2 if v else 0
             if str(want) != mexit:
                 mirror.append(("exit code", want, mexit))
@@ -999,6 +1203,14 @@ def gen_cases(ctx):
         for fs in FEATSETS:
             for _ in range(3 if wp in ("export-subset", "history") else 1):
                 cases.append((mk(wp, fs), []))
+    # (A2) non-scalar features spanning several HDF5 chunks, selection sizes around k*chunk
+    cases += gen_chunk_cases(rng, ctx.thorough)
+    # (A3) outputs that hold only events a classifier did not rate (score feature all-nan)
+    for fs in ("ml", "mlnan"):
+        n = rng.randint(ML_RATED + 3, ML_RATED + 8)
+        cases.append((("export-range", fs, n, {"keep": [ML_RATED + rng.choice([0, 1]), n]}), []))
+        cases.append((("export-range", fs, n, {"keep": [rng.randint(0, 3), n - 1]}), []))
+        cases.append((("split", fs, n, {"part": 1}), []))
     # F13 / F23 recorded inputs
     cases.append((("writer", "image", 7, {}), [("evcount", 2)]))
     cases.append((("writer", "image", 7, {}), [("trunc", "index", 2)]))
